@@ -8,6 +8,7 @@ import (
 	"sort"
 	"strings"
 	"sync"
+	"sync/atomic"
 	"time"
 
 	"github.com/dtn7/dtn7-go/pkg/agent"
@@ -17,6 +18,7 @@ import (
 	"github.com/dtn7/dtn7-go/verif/gen"
 	"github.com/dtn7/dtn7-go/verif/ref"
 	"github.com/dtn7/dtn7-go/verif/vrt"
+	"github.com/dtn7/dtn7-go/verif/vsync"
 	"github.com/dtn7/dtn7-go/verif/vtime"
 )
 
@@ -172,6 +174,10 @@ func newNhNode(cfg nhConfig) (*nhNode, error) {
 
 func (n *nhNode) open() error {
 	gen.RegisterAll()
+	// explicit-state replays must be deterministic: the per-peer sender goroutines of Core.forward run one
+	// after the other in spawn order (their interleavings are the subject of the schedule exploration)
+	vrt.SerialLabels.Store("processing.go:forward", true)
+	atomic.StoreInt32(&vsync.RangeOrder, 1)
 	c, err := routing.NewCore(n.dir, gen.MustEID(nhNodeID), n.cfg.Inspect, nhRoutingConf(n.cfg), nil)
 	if err != nil {
 		return err
@@ -192,6 +198,13 @@ func (n *nhNode) close() {
 	}
 	n.closed = true
 	n.core.Close()
+	// Core.Close leaves the agent manager and the mux running; stop them so that closed nodes can be collected
+	n.core.VerifCloseAgents()
+	if n.agent != nil {
+		<-n.agent.done
+		close(n.agent.sender)
+		n.agent = nil
+	}
 	for _, p := range n.peers {
 		p.up = false
 	}
@@ -264,8 +277,9 @@ func (n *nhNode) submitViaAgent(b bpv7.Bundle) {
 	n.agent.sender <- agent.SyscallRequestMessage{Sender: n.agent.eids[0], Request: "verif-marker-2"}
 }
 
-func (n *nhNode) retryTick()              { n.core.VerifRetryTick() }
-func (n *nhNode) cleanTick()              { n.core.VerifStore().DeleteExpired() }
+func (n *nhNode) retryTick() { n.core.VerifRetryTick() }
+func (n *nhNode) cleanTick() { n.core.VerifStore().DeleteExpired() }
+
 // advance lets virtual time pass. The node's own tickers (cron, CLA retry) have
 // nothing to do in the harness (cron jobs are run explicitly), so the clock
 // jumps; the cron wiring itself is exercised by the dedicated wiring scenario.
